@@ -14,6 +14,8 @@ SumSizes(hs) == LET F[i \in 0..Len(hs)] == IF i = 0 THEN 0 ELSE F[i - 1] + hs[i]
 C05Cat(e) == /\ e.thrown = "" /\ Len(e.bytes) > 0
              /\ LET d == Dissect2(e.entry, e.bytes, Len(e.kinds)) IN
                 (/\ Kinds2(d) = e.kinds
+                 \* the builder's last interpreted layer is an MPLS label: what follows is not a label, so this one ends the stack (RFC 3032 2.1)
+                 /\ (Len(e.kinds) > 0 /\ e.kinds[Len(e.kinds)] = "mpls") => d.layers[Len(e.kinds)].s = 1
                  /\ AllOK2(d)
                  /\ PadOK2(e.entry, e.bytes, d)) = TRUE
 C02Cat(e) == /\ e.thrown = ""                                  \* "serialize() succeeds
